@@ -26,6 +26,17 @@ func ComputePrices(v *model.Commodity) *Processor {
 	var previous price.NormalizedPrices
 	prc := make(price.Prices)
 	return &Processor{
+		DayStart: func(d *Day) error {
+			// several prices for one pair on one day: the last one in source order
+			// wins, independently of the order in which the files were loaded
+			sortBySource(d.Prices, func(p *model.Price) *syntax.Range {
+				if p.Src == nil {
+					return nil
+				}
+				return &p.Src.Range
+			})
+			return nil
+		},
 		Price: func(p *model.Price) error {
 			return prc.Insert(p.Commodity, p.Price, p.Target)
 		},
